@@ -377,6 +377,22 @@ def run(tier, seed):
             jobs.append({"kind": "c19", "seed": seed, "run": f"spelling-{tid}-{order}",
                          "env": pool[0], "params": DEFAULT_PARAMS, "steps": steps,
                          "ref": ref_for(ref, steps), "timeout": 900})
+    # requests whose target names belong to a generic generation that has not been produced
+    # yet: the caller registers exactly these names first (a legal explicit request), then
+    # issues the request - the result must be the one of the pristine session
+    from .registry_model import split_names
+    for tid in tids:
+        tg = cat.BY_ID[tid].get("targets")
+        if not tg or tid not in ref:
+            continue
+        names = [n for n in split_names(tg) if n[1:].isdigit() and int(n[1:]) >= 3]
+        if not names:
+            continue
+        for k, first in enumerate((names, names[::-1], names[:1])):
+            steps = [{"op": "reg.get", "names": list(first)}, {"op": "req", "t": tid}]
+            jobs.append({"kind": "c19", "seed": seed, "run": f"registered-first-{k}-{tid}",
+                         "env": pool[0], "params": DEFAULT_PARAMS, "steps": steps,
+                         "ref": ref_for(ref, steps), "timeout": 900})
     for tid in POOL_PHASE:
         if tid not in ref:
             continue
